@@ -7,9 +7,16 @@ package rpc
 //
 //	pub-long / pub-short   rpc.NewServer(ServerConfig{Timeout: 10 min / 150 ms}) - the public
 //	                       constructor, interceptors exactly as server.Start and setupInterceptors order them
+//	pub-none               rpc.NewServer(ServerConfig{Timeout: 0}): the chain without time-out interceptor
 //	obs-long / obs-short   internal.NewServer + an observer interceptor + the real setupInterceptors,
 //	                       so that the status returned by the time-out interceptor is seen server-side
 //	                       (needed for client cancel, where the client never sees the server's answer)
+//
+// The specification's `chain` dimension: "server" = the long/short servers, "server0" = pub-none; the
+// in-process chains ("crash": serverinterceptors.UnaryCrashInterceptor alone, "crash+setup" / "crash+setup0":
+// the crash interceptor around what the real setupInterceptors adds for Timeout > 0 / = 0) are composed in
+// the parent process and called directly, where the pair (resp, err) itself is observed.  The `pv`
+// dimension is the value a panicking handler throws (c02RpcPanic).
 //
 // The handler is gated: "late" scenarios block on <-ctx.Done() (the 150 ms time-out is always
 // reached because the handler waits for it; a cancel comes from the client once the handler was
@@ -28,6 +35,7 @@ import (
 	"bufio"
 	"context"
 	"encoding/json"
+	"errors"
 	"fmt"
 	"io"
 	"net"
@@ -107,9 +115,56 @@ func (d *c02Dep) Deposit(ctx context.Context, _ *mock.DepositRequest) (*mock.Dep
 	case "err":
 		return nil, status.Error(codes.InvalidArgument, "verif C02: scripted handler error")
 	case "panic":
-		panic("verif C02: scripted handler panic")
+		c02RpcPanic(c02MD(ctx, "x-verif-pv"))
 	}
 	return &mock.DepositResponse{Ok: true}, nil
+}
+
+type c02RpcCustom struct{ n int }
+
+// c02RpcStatusErr is an error that answers the GRPCStatus() interface status.Code / status.FromError look for.
+type c02RpcStatusErr struct{ code codes.Code }
+
+func (e c02RpcStatusErr) Error() string {
+	return "verif C02: scripted handler panic (custom error with GRPCStatus)"
+}
+func (e c02RpcStatusErr) GRPCStatus() *status.Status {
+	return status.New(e.code, "verif C02: status carried by a panic value")
+}
+
+// c02RpcPanic panics with the kind of value the scenario names; no prediction depends on it.
+func c02RpcPanic(pv string) {
+	switch pv {
+	case "", "string":
+		panic("verif C02: scripted handler panic")
+	case "error":
+		panic(errors.New("verif C02: scripted handler panic (error value)"))
+	case "wrapped":
+		panic(fmt.Errorf("verif C02: scripted handler panic: %w", io.ErrUnexpectedEOF))
+	case "nilmap":
+		var m map[string]int
+		m["x"] = 1 // runtime error: assignment to entry in nil map
+	case "nilptr":
+		var p *c02RpcCustom
+		p.n++ // runtime error: invalid memory address or nil pointer dereference
+	case "index":
+		var s []int
+		i := len(s) + 3
+		_ = s[i] // runtime error: index out of range
+	case "custom":
+		panic(c02RpcCustom{n: 2})
+	case "status_notfound":
+		panic(status.Error(codes.NotFound, "verif C02: scripted handler panic (status error)"))
+	case "status_deadline":
+		panic(status.Error(codes.DeadlineExceeded, "verif C02: scripted handler panic (status error)"))
+	case "status_wrapped":
+		panic(fmt.Errorf("verif C02: scripted handler panic: %w", status.Error(codes.PermissionDenied, "wrapped status")))
+	case "grpcstatus_exists":
+		panic(c02RpcStatusErr{code: codes.AlreadyExists})
+	case "grpcstatus_ok":
+		panic(c02RpcStatusErr{code: codes.OK})
+	}
+	panic("verif C02: unknown panic value kind " + pv)
 }
 
 func c02RpcFreeAddr() (string, error) {
@@ -209,7 +264,8 @@ func TestVerifC02RpcServer(t *testing.T) {
 		name string
 		ms   int64
 		obs  bool
-	}{{"pub-long", c02RpcLongMs, false}, {"pub-short", c02RpcShortMs, false}, {"obs-long", c02RpcLongMs, true}, {"obs-short", c02RpcShortMs, true}} {
+	}{{"pub-long", c02RpcLongMs, false}, {"pub-short", c02RpcShortMs, false}, {"obs-long", c02RpcLongMs, true}, {"obs-short", c02RpcShortMs, true},
+		{"pub-none", 0, false}} {
 		addr, err := c02StartServer(dep, s.ms, s.obs)
 		if err != nil {
 			out.emit(kit.M{"ev": "fatal", "msg": err.Error()})
@@ -348,6 +404,11 @@ type c02RpcRes struct {
 
 // call runs one scenario against one server. bound: how long the client waits at most.
 func (c *c02Child) call(server string, beh string, late bool, cause, wait string, bound time.Duration) (r c02RpcRes) {
+	return c.callPV(server, beh, "", late, cause, wait, bound)
+}
+
+// callPV: pv = the kind of value a panicking handler throws
+func (c *c02Child) callPV(server string, beh, pv string, late bool, cause, wait string, bound time.Duration) (r c02RpcRes) {
 	id := strconv.FormatInt(c02RpcSeq.Add(1), 10)
 	l := "0"
 	if late {
@@ -356,7 +417,7 @@ func (c *c02Child) call(server string, beh string, late bool, cause, wait string
 	r.obsDelay, r.enterLat = -1, -1
 	ctx, cancel := context.WithTimeout(context.Background(), bound)
 	defer cancel()
-	ctx = metadata.AppendToOutgoingContext(ctx, "x-verif-id", id, "x-verif-beh", beh, "x-verif-late", l, "x-verif-wait", wait)
+	ctx = metadata.AppendToOutgoingContext(ctx, "x-verif-id", id, "x-verif-beh", beh, "x-verif-late", l, "x-verif-wait", wait, "x-verif-pv", pv)
 	var cancelledAt atomic.Int64
 	if late && cause == "cancel" {
 		go func() {
@@ -532,6 +593,71 @@ func c02RpcStress(c kit.Case, m kit.M, child *c02Child, rep *kit.Reporter) kit.V
 	return v
 }
 
+// ---------------------------------------------------------------- the in-process chains
+
+// c02RpcInterceptors: what stands between UnaryCrashInterceptor and the handler in an in-process chain -
+// whatever the real setupInterceptors adds for the configuration the chain names.
+func c02RpcInterceptors(chain string) ([]grpc.UnaryServerInterceptor, error) {
+	if ics, ok := c02RpcChainCache[chain]; ok {
+		return ics, nil
+	}
+	ics, err := c02RpcCompose(chain)
+	if err == nil {
+		c02RpcChainCache[chain] = ics
+	}
+	return ics, err
+}
+
+var c02RpcChainCache = map[string][]grpc.UnaryServerInterceptor{}
+
+func c02RpcCompose(chain string) ([]grpc.UnaryServerInterceptor, error) {
+	conf := ServerConfig{ListenOn: "127.0.0.1:1", Timeout: c02RpcLongMs, CpuThreshold: 0}
+	switch chain {
+	case "crash":
+		return nil, nil
+	case "crash+setup":
+	case "crash+setup0":
+		conf.Timeout = 0
+	default:
+		return nil, fmt.Errorf("unknown in-process chain %q", chain)
+	}
+	capt := &c02Capture{}
+	if err := setupInterceptors(capt, conf, stat.NewMetrics("verif-c02-"+chain)); err != nil {
+		return nil, err
+	}
+	return capt.unary, nil
+}
+
+// c02RpcDirect serves one in-time scenario through an in-process chain and returns what the caller of
+// UnaryCrashInterceptor gets: the gRPC code of err; swallowed = a panicking handler came back as success
+// (or an ok/err handler as (nil, nil)); "panic-escaped-the-chain" if the panic was not recovered at all.
+func c02RpcDirect(ics []grpc.UnaryServerInterceptor, beh, pv string) (code string, swallowed bool) {
+	info := &grpc.UnaryServerInfo{FullMethod: "/mock.DepositService/Deposit"}
+	var inner grpc.UnaryHandler = func(ctx context.Context, req interface{}) (interface{}, error) {
+		switch beh {
+		case "panic":
+			c02RpcPanic(pv)
+		case "err":
+			return nil, status.Error(codes.InvalidArgument, "verif C02: scripted handler error")
+		}
+		return &mock.DepositResponse{Ok: true}, nil
+	}
+	for i := len(ics) - 1; i >= 0; i-- {
+		ic, next := ics[i], inner
+		inner = func(ctx context.Context, req interface{}) (interface{}, error) { return ic(ctx, req, info, next) }
+	}
+	defer func() {
+		if p := recover(); p != nil {
+			code, swallowed = "panic-escaped-the-chain", false
+		}
+	}()
+	resp, err := serverinterceptors.UnaryCrashInterceptor(context.Background(), &mock.DepositRequest{Amount: 1}, info, inner)
+	if err == nil && (resp == nil || beh != "ok") {
+		return "OK", true
+	}
+	return status.Code(err).String(), false
+}
+
 func c02In(set []any, s string) bool {
 	for _, e := range set {
 		if kit.Str(e) == s {
@@ -556,6 +682,7 @@ func TestVerifC02Rpc(t *testing.T) {
 	defer rep.Close()
 	shard, shards := kit.EnvInt("VERIF_SHARD", 0), kit.EnvInt("VERIF_SHARDS", 1)
 	repeat := kit.EnvInt("VERIF_C02_REPEAT", 3)
+	logx.Disable()
 	child, err := c02Spawn()
 	if err != nil {
 		rep.Put(kit.Verdict{Case: -1, Infra: true, Msg: err.Error()})
@@ -580,6 +707,13 @@ func TestVerifC02Rpc(t *testing.T) {
 			continue
 		}
 		beh, late, cause, wait := kit.Str(m["beh"]), kit.Bool(m["late"]), kit.Str(m["cause"]), kit.Str(m["wait"])
+		pv, chain := kit.Str(m["pv"]), kit.Str(m["chain"])
+		if pv == "none" {
+			pv = ""
+		}
+		if chain == "" {
+			chain = "server"
+		}
 		exp := kit.List(m["exp"])
 		atDeadline := kit.Str(m["at"]) == "deadline" // the answer must arrive at the deadline/cancel, not at the handler's end
 		v := kit.Verdict{Case: c.Index, OK: true}
@@ -590,9 +724,62 @@ func TestVerifC02Rpc(t *testing.T) {
 				scen += "-" + wait
 			}
 		}
-		kind := "long"
+		what := scen
+		if pv != "" {
+			what += " (panic value: " + pv + ")"
+		}
+		count := func() {
+			rep.Count("chain."+chain+"."+beh, 1)
+			if pv != "" {
+				rep.Count("pv."+pv, 1)
+			}
+		}
+		if chain != "server" && chain != "server0" {
+			// in-process chain: the crash interceptor called directly
+			if late {
+				rep.Put(kit.Verdict{Case: c.Index, Infra: true, Msg: "late scenario on an in-process chain: " + chain})
+				continue
+			}
+			ics, err := c02RpcInterceptors(chain)
+			if err != nil {
+				rep.Put(kit.Verdict{Case: c.Index, Infra: true, Msg: err.Error()})
+				continue
+			}
+			for rnd := 0; rnd < repeat && v.OK; rnd++ {
+				code, swallowed := c02RpcDirect(ics, beh, pv)
+				v.Steps++
+				switch {
+				case code == "panic-escaped-the-chain":
+					v.OK, v.Key = false, "C02:rpc:panic-escaped:"+chain
+					v.Msg = fmt.Sprintf("scenario %s, in-process chain %s (%d interceptors inside UnaryCrashInterceptor): the handler's panic came out of UnaryCrashInterceptor; specification allows %v", what, chain, len(ics), exp)
+				case swallowed && beh == "panic":
+					v.OK, v.Key = false, "C02:rpc:panic-swallowed"
+					v.Msg = fmt.Sprintf("scenario %s, in-process chain %s: UnaryCrashInterceptor returned a nil error - the handler's panic was turned into success; specification allows %v", what, chain, exp)
+				case swallowed:
+					v.OK, v.Key = false, "C02:rpc:direct-code:"+scen+":"+chain
+					v.Msg = fmt.Sprintf("scenario %s, in-process chain %s: UnaryCrashInterceptor returned (nil, nil); specification: the handler's own result", what, chain)
+				case !c02In(exp, code):
+					v.OK, v.Key = false, "C02:rpc:direct-code:"+scen+":"+chain
+					v.Msg = fmt.Sprintf("scenario %s, in-process chain %s (%d interceptors inside UnaryCrashInterceptor): the caller got gRPC code %s, specification allows %v", what, chain, len(ics), code, exp)
+				}
+			}
+			if v.OK {
+				count()
+			}
+			rep.Put(v)
+			continue
+		}
+		servers, ksuffix := []string{"pub-long", "obs-long"}, ""
 		if late && cause == "deadline" {
-			kind = "short"
+			servers = []string{"pub-short", "obs-short"}
+		}
+		kindMs := map[string]int{"pub-long": c02RpcLongMs, "obs-long": c02RpcLongMs, "pub-short": c02RpcShortMs, "obs-short": c02RpcShortMs, "pub-none": 0}
+		if chain == "server0" {
+			servers, ksuffix = []string{"pub-none"}, ":no-timeout"
+			if late {
+				rep.Put(kit.Verdict{Case: c.Index, Infra: true, Msg: "late scenario on a server without time-out"})
+				continue
+			}
 		}
 		rounds, bound := repeat, c02RpcBarrier
 		if wait == "sleep" || wait == "never" {
@@ -601,14 +788,20 @@ func TestVerifC02Rpc(t *testing.T) {
 				rounds = 3
 			}
 		}
+		if late && pv != "" && pv != "string" {
+			// every other panic value is itself a repetition of the late panic scenario
+			if rounds = repeat / 3; rounds > 3 {
+				rounds = 3
+			}
+		}
 	loop:
 		for rnd := 0; rnd < rounds; rnd++ {
-			for _, server := range []string{"pub-" + kind, "obs-" + kind} {
+			for _, server := range servers {
 				var r c02RpcRes
 				lateN, stalled := 0, 0
 				const attempts = 3
 				for a := 0; a < attempts; a++ {
-					r = child.call(server, beh, late, cause, wait, bound)
+					r = child.callPV(server, beh, pv, late, cause, wait, bound)
 					v.Steps++
 					if !child.alive() || !atDeadline {
 						break
@@ -626,7 +819,7 @@ func TestVerifC02Rpc(t *testing.T) {
 				}
 				if !child.alive() {
 					v.OK, v.Key = false, "C02:rpc:server-down:"+scen
-					v.Msg = fmt.Sprintf("server process died while serving scenario %s on %s (client saw %s); specification: the server survives and answers %v", scen, server, r.client, exp)
+					v.Msg = fmt.Sprintf("server process died while serving scenario %s on %s (client saw %s); specification: the server survives and answers %v", what, server, r.client, exp)
 					break loop
 				}
 				if lateN == attempts {
@@ -635,27 +828,30 @@ func TestVerifC02Rpc(t *testing.T) {
 						break loop
 					}
 					v.OK, v.Key = false, "C02:rpc:late-deadline:"+scen
-					what := fmt.Sprintf("the client had its answer (%s) only after %v", r.client, r.elapsed.Round(time.Millisecond))
+					how := fmt.Sprintf("the client had its answer (%s) only after %v", r.client, r.elapsed.Round(time.Millisecond))
 					if cause == "cancel" {
-						what = fmt.Sprintf("the time-out interceptor returned (%s) only %v after the client's cancel", r.srv, r.obsDelay.Round(time.Millisecond))
+						how = fmt.Sprintf("the time-out interceptor returned (%s) only %v after the client's cancel", r.srv, r.obsDelay.Round(time.Millisecond))
 					}
 					v.Msg = fmt.Sprintf("scenario %s on %s (time-out %d ms, handler ends %v after entry or never): %s in each of %d attempts; specification answers at the %s, i.e. within %v",
-						scen, server, map[string]int{"short": c02RpcShortMs, "long": c02RpcLongMs}[kind], c02RpcSleep, what, attempts, cause, c02RpcPrompt)
+						what, server, kindMs[server], c02RpcSleep, how, attempts, cause, c02RpcPrompt)
 					break loop
 				}
 				if !c02In(exp, r.client) {
-					v.OK, v.Key = false, "C02:rpc:client-code:"+scen
-					v.Msg = fmt.Sprintf("scenario %s on %s: client saw gRPC code %s, specification allows %v", scen, server, r.client, exp)
+					v.OK, v.Key = false, "C02:rpc:client-code:"+scen+ksuffix
+					v.Msg = fmt.Sprintf("scenario %s on %s (ServerConfig.Timeout = %d ms): client saw gRPC code %s, specification allows %v", what, server, kindMs[server], r.client, exp)
 					break loop
 				}
 				// server side: only where the chain's own answer is the time-out interceptor's (late scenarios)
 				if r.srv != "" && late && !c02In(exp, r.srv) {
 					v.OK, v.Key = false, "C02:rpc:server-code:"+scen
-					v.Msg = fmt.Sprintf("scenario %s on %s: the time-out interceptor returned %s, specification allows %v", scen, server, r.srv, exp)
+					v.Msg = fmt.Sprintf("scenario %s on %s: the time-out interceptor returned %s, specification allows %v", what, server, r.srv, exp)
 					break loop
 				}
 				rep.Count(server+"."+scen, 1)
 			}
+		}
+		if v.OK {
+			count()
 		}
 		rep.Put(v)
 		if !child.alive() {
@@ -667,7 +863,7 @@ func TestVerifC02Rpc(t *testing.T) {
 		}
 	}
 	// nobody took the servers down: a plain call still succeeds on each of them
-	for _, server := range []string{"pub-long", "pub-short", "obs-long", "obs-short"} {
+	for _, server := range []string{"pub-long", "pub-short", "obs-long", "obs-short", "pub-none"} {
 		r := child.call(server, "ok", false, "deadline", "none", c02RpcBarrier)
 		if r.client != "OK" {
 			if !child.alive() || r.client == "Unavailable" {
